@@ -100,6 +100,15 @@ def outage (d : DS) (mode : String) (u pid : Nat) (pidNew : Option Nat) : DS × 
     | none => d2a
   if mode == "up" then (d2, s!"ok sanity | {digest d2}")
   else
+    if mode == "rerr" then
+      -- flapping primary (SELECTs answer with an error, writes work): what the routes answer is not
+      -- prescribed (fail, or continue from the cache); nothing may be written except the direct delete
+      let auth := ["login=any"] ++ (if hasTOTP pid then ["authTOTP=any"] else []) ++
+        (if hasU2F pid then ["u2fSignReq=any", "waAuthBegin=any", "waAuthFinish=any"] else [])
+      let muts := mutatingRoutes.map fun r => s!"{r.1}=nowrite"
+      let d3 := applyOp d2 (.delete u)
+      (d3, s!"ok unchanged=1 mails=0 {" ".intercalate (auth ++ muts)} deleteUser=ok | {digest d2} | {digest d3}")
+    else
     let writable := mode != "down"
     let auth := ["login=ok"] ++ (if hasTOTP pid then ["authTOTP=ok"] else []) ++
       (if hasU2F pid then ["u2fSignReq=ok", "waAuthBegin=ok", "waAuthFinish=ok"] else [])
@@ -173,13 +182,22 @@ def model (d : DS) : List String → DS × String
   | ["outage", mode, u, pid] =>
     match u.toNat?, pid.toNat? with
     | some u, some pid =>
-      if mode == "up" || mode == "t0" || mode == "slow" || mode == "down" then outage d mode u pid none
+      if mode == "up" || mode == "t0" || mode == "slow" || mode == "down" || mode == "rerr" then outage d mode u pid none
       else (d, "bad-op")
     | _, _ => (d, "bad-op")
+  | ["restart"] => let d' := applyOp d .restart; (d', s!"ok {digest d'}")
+  | ["label", u, o, n] =>
+    match u.toNat?, o.toNat?, n.toNat? with
+    | some u, some o, some n =>
+      if o == n then (d, "bad-op") else
+      let d1 : DS := { d with seenU := u :: (1000 + u) :: d.seenU }
+      let d2 := applyOp (applyOp (applyOp (applyOp d1 (.save u o)) (.sync ⟨false, false⟩ none)) (.save u n)) (.save (1000 + u) n)
+      (d2, s!"ok label | {digest d2}")
+    | _, _, _ => (d, "bad-op")
   | ["ostale", mode, u, o, n] =>
     match u.toNat?, o.toNat?, n.toNat? with
     | some u, some o, some n =>
-      if mode == "up" || mode == "t0" || mode == "slow" || mode == "down" then outage d mode u o (some n)
+      if mode == "up" || mode == "t0" || mode == "slow" || mode == "down" || mode == "rerr" then outage d mode u o (some n)
       else (d, "bad-op")
     | _, _, _ => (d, "bad-op")
   | ["flap", route, u, pid] =>
@@ -247,19 +265,37 @@ def judge : List String → String
     -- `c15_outage_readonly` on what the handlers did: every profile-changing route refused (the
     -- direct delete failed or, primary reachable, done), logins and second factor checks answered,
     -- both row sets unchanged, no side effect (no bootstrap OTP mailed)
-    if !(mode == "t0" || mode == "slow" || mode == "down") then "bad-op" else
+    if !(mode == "t0" || mode == "slow" || mode == "down" || mode == "rerr") then "bad-op" else
     let bad := toks.filter fun t =>
       match t.splitOn "=" with
       | [name, v] =>
         if name == "deleteUser" then !(v == "failed" || (mode != "down" && v == "ok"))
-        else if name == "addUser" then !(v == "refused" || v == "400")
-        else if (mutatingRoutes.map (·.1)).contains name then v != "refused"
-        else if ["login", "authTOTP", "u2fSignReq", "waAuthBegin", "waAuthFinish"].contains name then v != "ok"
+        else if name == "addUser" then !(v == "refused" || v == "400" || (mode == "rerr" && v == "failed"))
+        else if (mutatingRoutes.map (·.1)).contains name then !(v == "refused" || (mode == "rerr" && v == "failed"))
+        else if ["login", "authTOTP", "u2fSignReq", "waAuthBegin", "waAuthFinish"].contains name then
+          -- a primary that answers reads with errors: failing the request or serving it from the cache
+          -- are both acceptable; a silent primary: the check continues from the cache
+          !(v == "ok" || (mode == "rerr" && (v == "failed" || v == "-")))
         else true
       | _ => true
     if unchanged != "unchanged=1" then "viol rows-changed-during-outage"
     else if mails != "mails=0" then s!"viol side-effect-during-outage {mails}"
     else if bad.isEmpty then "ok" else s!"viol {" ".intercalate bad}"
+  | ["cachesame", before, after] =>
+    -- only a synchronisation may change the cache (`cache_nonsync`, `c15_restart_keeps_cache`)
+    match parseDigest before, parseDigest after with
+    | some b, some a => if a == b then "ok" else "viol cache-changed-without-a-synchronisation"
+    | _, _ => "bad-op"
+  | "label" :: toks =>
+    -- is the fromCache flag truthful?  the answer was compared with what each database holds: the
+    -- cache's row (C), or "no such user" when only the cache lacks the row (N), must carry fromCache = 1;
+    -- the primary's row (P) fromCache = 0; identical rows (S), absent in both (Z) and errors carry no information
+    let bad := toks.filter fun t =>
+      match t.splitOn ":" with
+      | [_, r] =>
+        !(["C1", "P0", "N1", "S0", "S1", "Z0", "Z1", "err0", "err1"].contains r)
+      | _ => true
+    if bad.isEmpty then "ok" else s!"viol cached-data-not-labelled-fromCache {" ".intercalate bad}"
   | "flap" :: toks =>
     -- primary lost at the k-th statement of a request: the row is the old one unless the handler
     -- reported success, never undecodable, and the cache is untouched
